@@ -58,6 +58,9 @@ where
 
     assignment_left: Option<Ident>,
     injecting_consts: Vec<VarDeclarator>,
+
+    type_resolution_depth: std::cell::Cell<usize>,
+    type_resolution_aborted: std::cell::Cell<bool>,
 }
 
 impl<C> VueJsxTransformVisitor<C>
@@ -85,6 +88,9 @@ where
 
             assignment_left: None,
             injecting_consts: Default::default(),
+
+            type_resolution_depth: Default::default(),
+            type_resolution_aborted: Default::default(),
         }
     }
 
